@@ -139,6 +139,7 @@ func verifKind(e event) (string, core.InfoHash) {
 type VerifHarness struct {
 	sched *scheduler
 	loop  *VerifLoop
+	aq    *announcequeue.QueueImpl
 }
 
 // NewVerifHarness builds an un-started scheduler around the given archive, clock
@@ -157,8 +158,9 @@ func NewVerifHarness(
 	if err != nil {
 		return nil, err
 	}
-	loop.st = newState(s, announcequeue.New())
-	return &VerifHarness{sched: s, loop: loop}, nil
+	aq := announcequeue.New()
+	loop.st = newState(s, aq)
+	return &VerifHarness{sched: s, loop: loop, aq: aq}, nil
 }
 
 // Scheduler returns the Scheduler interface of the harnessed scheduler. Calls
@@ -267,4 +269,26 @@ func (h *VerifHarness) LocalRequest(ih core.InfoHash) (known, local bool) {
 		return false, false
 	}
 	return true, ctrl.localRequest
+}
+
+// AnnounceTick applies an announce tick (what the announcer's ticker sends): the next
+// torrent of the announce queue that is not saturated is announced on its own goroutine.
+func (h *VerifHarness) AnnounceTick() {
+	announceTickEvent{}.apply(h.loop.st)
+}
+
+// AnnounceQueue returns the announce queue's ready list (front first) and its set of
+// torrents with an announce in flight. Must not be called concurrently with Apply / Tick.
+func (h *VerifHarness) AnnounceQueue() (ready, pending []core.InfoHash) {
+	return h.aq.VerifSnapshot()
+}
+
+// Torrents lists the torrents the state holds a control for. Must not be called
+// concurrently with Apply / Tick.
+func (h *VerifHarness) Torrents() []core.InfoHash {
+	var out []core.InfoHash
+	for ih := range h.loop.st.torrentControls {
+		out = append(out, ih)
+	}
+	return out
 }
